@@ -24,6 +24,8 @@ CLAIM = dict(
          "order isomorphism between the two searches of the transition tree), C12_defaults_converge and C12_alias_converge (the URL the builder "
          "produced for the canonical rule is answered by that rule and not redirected again, given a canonical rule that is not shadowed and "
          "distinct traces within the endpoint), C12_websocket_redirect_scheme (an adapter bound to a websocket request redirects to ws:// / wss://), "
+         "C12_alias_redirect_scheme / C12_build_scheme_table (the alias redirect, built with MapAdapter.build, is ws / wss for a websocket rule and "
+         "http / https otherwise, of the security the adapter is bound with - no downgrade), "
          "C12_redirect_to_target / C12_redirect_to_subst / C12_redirect_to_on_base (a rule with a string redirect_to answers with a redirect to "
          "scheme://host/script-root/ + the template with every <name> replaced by its converter's to_url of the matched value). "
          "Tied to the code by the regenerated constants and statement pins of coq/C03/Gen.v and by differential execution (extracted model vs "
@@ -60,9 +62,11 @@ def gen_adapter(rng, ms: MapSpec) -> Adapter:
             sub = d.lit if d.lit is not None else rng.choice(["api", "de", "www"])
         else:
             sub = rng.choice([None, None, "", "", "api"])
+    has_ws = any(r.websocket for r in ms.rules)
     if rng.random() < 0.3:
         # bound the way an application binds: Map.bind_to_environ on a WSGI environ (query string through the environ)
         scheme = rng.choice(["http", "https"])
+        upgrade = rng.random() < (0.6 if has_ws else 0.1)      # Connection: Upgrade / Upgrade: websocket -> ws / wss
         own, other = (":80", ":443") if scheme == "http" else (":443", ":80")
         c = rng.random()
         server, suffix = rng.choice(SERVERS).lower(), ""
@@ -73,11 +77,11 @@ def gen_adapter(rng, ms: MapSpec) -> Adapter:
         # the configured server_name does not fit the Host header: bind_to_environ warns and binds the subdomain "<invalid>"
         mismatch = not ms.host_matching and rng.random() < 0.12
         return Adapter(scheme=scheme, server=server, script=rng.choice(SCRIPTS),
-                       subdomain=sub, query=rng.choice(ENV_QUERIES), environ=True, host_suffix=suffix, mismatch=mismatch)
+                       subdomain=sub, query=rng.choice(ENV_QUERIES), environ=True, host_suffix=suffix, mismatch=mismatch, upgrade=upgrade)
     # Map.default_subdomain stands in for a subdomain that is not given to Map.bind
     dsub = rng.choice(["www", "api", "de"]) if (sub is None and not ms.host_matching and rng.random() < 0.3) else None
-    return Adapter(scheme=rng.choice(SCHEMES), server=rng.choice(SERVERS).lower(), script=rng.choice(SCRIPTS), subdomain=sub,
-                   query=rng.choice(QUERIES), default_sub=dsub)
+    return Adapter(scheme=rng.choice(["ws", "wss", "wss", "ws", "https", "http"] if has_ws else SCHEMES), server=rng.choice(SERVERS).lower(),
+                   script=rng.choice(SCRIPTS), subdomain=sub, query=rng.choice(QUERIES), default_sub=dsub)
 
 
 def with_defaults(rng, ms: MapSpec) -> MapSpec:
@@ -92,16 +96,18 @@ def with_defaults(rng, ms: MapSpec) -> MapSpec:
     if rng.random() < 0.3:
         mid.insert(0, Seg(conv=Conv("s"), name="sec"))
     dom = rng.choice([r.dom for r in rules]) if rules else Seg(lit="")
+    # a websocket endpoint: its rules are websocket=True, reached by adapters bound with ws / wss (or an Upgrade request)
+    wsg = rng.random() < 0.3
     b = RuleSpec(idx=0, endpoint=ep, segs=(Seg(lit=tag), *mid, var), branch=rng.random() < 0.35,
-                 methods=rng.choice([None, None, ("GET",)]), dom=dom, strict=rng.choice([None, None, False]),
-                 merge=rng.choice([None, None, False]))
+                 methods=None if wsg else rng.choice([None, None, ("GET",)]), dom=dom, strict=rng.choice([None, None, False]),
+                 merge=rng.choice([None, None, False]), websocket=wsg)
     group = [b]
     dv = 1 if var.conv.kind == "i" else "a"
     c = rng.random()
     if c < 0.75:
         head = (Seg(lit=tag), *[s_ for s_ in mid if s_.lit is None])
         a = replace(b, segs=head, branch=rng.random() < 0.6, defaults=(("page", dv),))
-        if rng.random() < 0.4:
+        if rng.random() < 0.4 and not wsg:
             # the canonical (defaults) rule takes fewer methods than the explicit rule:
             # Rule('/items/', defaults={'page': 1}, methods=['GET']) next to Rule('/items/<int:page>', methods=['GET', 'POST'])
             b = replace(b, methods=("GET", "POST"))
@@ -247,7 +253,7 @@ def judge_c12(chk, m, by_obj, ms: MapSpec, oracles, ad: Adapter, path: str, meth
         return None
     url = uncps(impl[2:])
     pp = "/" + path.lstrip("/") if path else ""
-    ws = ad.scheme in ("ws", "wss")
+    ws = ad.eff_scheme() in ("ws", "wss")
     allowed, _ = oracle_outcomes(ms, oracles, domain_part(ms, ad), pp, meth.upper(), ws)
     denote = set()
     from_builder = False
@@ -264,10 +270,19 @@ def judge_c12(chk, m, by_obj, ms: MapSpec, oracles, ad: Adapter, path: str, meth
     # --- on host
     sp = urlsplit(url)
     q = ad.query_str()
-    scheme = ad.scheme or "http"
-    if from_builder and not url.startswith(scheme + ":"):
-        # alias redirects are built with MapAdapter.build: http(s) for ws(s)
-        scheme = {"ws": "http", "wss": "https"}.get(scheme, scheme)
+    scheme = ad.eff_scheme() or "http"
+    if from_builder:
+        # a defaults redirect is make_redirect_url (the adapter's scheme); an alias redirect is MapAdapter.build(force_external=True):
+        # ws / wss for a websocket rule, http / https for any other rule - of the security the adapter is bound with, never a downgrade
+        secure = scheme in ("https", "wss")
+        eps = {e for e, _ in denote}
+        ok_schemes = {scheme}
+        for r in ms.rules:
+            if r.endpoint in eps:
+                ok_schemes.add(("wss" if secure else "ws") if r.websocket else ("https" if secure else "http"))
+        if urlsplit(url).scheme not in ok_schemes:
+            return "redirect-off-scheme", f"builder redirect to {url!r}: scheme is not one of {sorted(ok_schemes)} (adapter bound with {scheme})"
+        scheme = urlsplit(url).scheme
     root = "/" + ad.script.strip("/") + ("/" if ad.script.strip("/") else "")
     hosts = {expected_host(ad, ms, None)}
     if from_builder:
@@ -400,7 +415,7 @@ def run(chk: Check) -> None:
                     kind = impl.split(" ")[0]
                     chk.count(f"outcome:{kind}")
                     bad = judge_c12(chk, m, by_obj, ms, oracles, ad, path, meth, impl)
-                    if kind == "R" and ad.environ and not ad.mismatch and not bad and not path.startswith("//") and path.startswith("/") \
+                    if kind == "R" and ad.environ and not ad.mismatch and not ad.upgrade and not bad and not path.startswith("//") and path.startswith("/") \
                             and "?" not in path and "#" not in path and "\n" not in path:
                         bad = e2e_query_preserved(m, ms, ad, path, meth)
                         chk.count("redirect:followed-through-client")
@@ -436,7 +451,7 @@ def redirect_to_campaign(chk, n_maps: int, lines, expect, meta) -> None:
         if rng.random() < 0.4:
             ms = with_defaults(rng, ms)
         ms = replace(ms, rules=tuple(replace(r, idx=i) for i, r in enumerate(ms.rules)))
-        ad = replace(gen_adapter(rng, ms), environ=False, mismatch=False, host_suffix="")
+        ad = replace(gen_adapter(rng, ms), environ=False, mismatch=False, host_suffix="", upgrade=False)
         if isinstance(ad.query, tuple) or ad.query is None or isinstance(ad.query, str):
             pass
         try:
